@@ -286,7 +286,10 @@ impl Player {
                 }
                 Err(e) => res_err(&e),
             },
-            "contasync" => match story.continue_async(n(1) as f32) {
+            "contasync" => match {
+                story.verif_set_step_clock(true);
+                story.continue_async(n(1) as f32)
+            } {
                 Ok(()) => {
                     let done = !story.verif_async_active();
                     if done {
